@@ -1,15 +1,22 @@
 """
-Deep tries: a chain of nested prefix keys (key i is a proper prefix of key i+1), pushed as
-deep as `set` itself can build under the interpreter's recursion limit.  Whatever set() can
-build must be readable: lookups, proofs and traversals of such a trie must not fail where
-the write path succeeded (metamorphic relation, no absolute depth is assumed).
+Deep tries: a chain of nested prefix keys (key i is a proper prefix of key i+1), 200 levels
+deep or as deep as `set` itself can build under the interpreter's recursion limit, whichever
+is less.  Whatever is built must be readable, provable, traversable and deletable.
+
+Why 200 and not "as deep as set() goes": on the unchanged tree set() is the operation that
+needs the most stack per level and gives up at about 247 levels from a shallow stack, so
+every other operation has head-room on anything set() built.  A behaviour-preserving change
+that makes set() iterative lets the chain grow beyond what the (still recursive) delete can
+handle - a resource limit the properties do not speak about, and no history that worked
+before stops working.  With the cap, an operation only fails here if it needs clearly more
+stack per level than the unchanged tree does at a depth the unchanged tree handles.
 """
 from trie import HexaryTrie
 
 from .util import impl
 
 
-def build_chain(limit=260, fan=False, prune=False):
+def build_chain(limit=200, fan=False, prune=False):
     """-> (trie, model, keys): keys[i] = i+1 bytes; stops quietly where set() itself gives up."""
     t = impl("construct", HexaryTrie, {}, prune=prune)
     model, keys = {}, []
